@@ -27,9 +27,17 @@ def step(ctx, case):
         B = ctl.SymLeaf(ctx, 'break')
         w.ctl.display_matcher = F
         w.ctl.stop_matcher = B
+        sel_conn = w.conns[sel] if sel is not None else None
         if sel is not None:
-            w.ctl.current_connection = w.conns[sel]
-        if closed is not None:
+            w.ctl.current_connection = sel_conn
+        reopened = None
+        if closed is not None and closed >= 10:
+            # the connection id is closed and opened again: a NEW connection (new name, empty records); the old one stays listed
+            reopened = closed - 10
+            old = w.conns[reopened]
+            w.conns[reopened] = w.manager.open_connection(5.0, 'conn%d' % reopened, None)
+            ctx.check('re-opening gives a new connection', w.conns[reopened] is not old and not old.is_open())
+        elif closed is not None:
             # the connection is gone (it stays listed and may stay selected); arrivals come on the other one
             w.manager.close_connection(5.0, 'conn%d' % closed)
         F2 = None
@@ -50,25 +58,30 @@ def step(ctx, case):
             w.ctl.process_command(ctx.choose(['connection B', 'c b'], 'spelling')); cur_sel = 1
         elif cmd == 'all':
             w.ctl.process_command('connection all'); cur_sel = None
+        elif cmd == 'typo':
+            # a name that is no connection: an error line, and the selection stays what it was
+            w.ctl.process_command(ctx.choose(['connection zz', 'c Q', 'connection a b'], 'spelling'))
         if cmd is not None:
             ctx.check('a command prints no message line', ctl.msg_lines(w.out.items[n0:]) == [])
             ctx.check('a command leaves the records untouched', (list(w.ctl.all_messages), [c.messages() for c in w.conns]) == rec_before)
-            ctx.check('selection after the command', w.ctl.current_connection is (w.conns[cur_sel] if cur_sel is not None else None))
+            exp_sel = sel_conn if cmd in ('filter', 'typo') else (w.conns[cur_sel] if cur_sel is not None else None)
+            ctx.check('selection after the command', w.ctl.current_connection is exp_sel)
         n1 = len(w.out.items)
         arrived = []
         from core import wl
         for k, ci in enumerate(arrivals):
             # messages the connection-naming code looks at (and may choke on) are messages like any other
-            kind = ctx.choose(['plain', 'title', 'title-empty', 'app-id', 'app-id-not-a-string', 'layer-surface-short'], 'kind%d' % k) if k == 0 else 'plain'
+            kind = ctx.choose(['plain', 'title', 'title-empty', 'app-id', 'app-id-not-a-string', 'layer-surface-short', 'unknown-object'], 'kind%d' % k) if k == 0 else 'plain'
             name, args = {'plain': ('sync', ()), 'title': ('set_title', (wl.Arg.String('a title'),)), 'title-empty': ('set_title', (wl.Arg.String(''),)),
                           'app-id': ('set_app_id', (wl.Arg.String('org.x.App'),)), 'app-id-not-a-string': ('set_app_id', (wl.Arg.Int(3),)),
-                          'layer-surface-short': ('get_layer_surface', (wl.Arg.Int(1),))}[kind]
-            arrived.append((ctl.add_message(w, ci, name=name, args=args), ci))
+                          'layer-surface-short': ('get_layer_surface', (wl.Arg.Int(1),)), 'unknown-object': ('poke', ())}[kind]
+            arrived.append((ctl.add_message(w, ci, name=name, args=args, target_id=1 if kind != 'unknown-object' else 99), ci))
         shown = ctl.msg_lines(w.out.items[n1:])
         exp_order = [m.tag for m, ci in arrived]
         ctx.check('only arriving messages are shown, each at most once, in arrival order', [t for t in exp_order if t in shown] == shown)
         for m, ci in arrived:
-            onsel = cur_sel is None or cur_sel == ci
+            selected = w.ctl.current_connection
+            onsel = selected is None or selected is w.conns[ci]
             v = F.verdict(m)
             if F2 is not None:
                 v = v | F2.verdict(m) if ctx.symbolic else (v or F2.verdict(m))
@@ -82,7 +95,18 @@ def step(ctx, case):
         ctx.check('every arrival is recorded in arrival order, shown or not', w.ctl.all_messages == rec_before[0] + [m for m, _ in arrived])
         for k in (0, 1):
             ctx.check('each connection records exactly its own arrivals', w.conns[k].messages() == rec_before[1][k] + tuple(m for m, ci in arrived if ci == k))
-        ctx.check('no error output', w.err.items == [])
+        ctx.check('no error output', w.err.items == [] or cmd == 'typo')
+        # a later `list *` (all connections) shows every recorded message, in order
+        w.ctl.process_command('connection all')
+        n2 = len(w.out.items)
+        w.ctl.process_command('list *')
+        ctx.check('`list *` afterwards shows every recorded message once, oldest first', ctl.msg_lines(w.out.items[n2:]) == [m.tag for m, _ in w.msgs])
+        for c in w.manager.connections():
+            w.ctl.process_command('connection ' + c.name())
+            n3 = len(w.out.items)
+            w.ctl.process_command('list *')
+            ctx.check('with a connection selected `list *` shows exactly what that connection recorded (also messages on objects it could not resolve)',
+                      ctl.msg_lines(w.out.items[n3:]) == [m.tag for m in c.messages()])
     finally:
         ctl.restore_show()
 
@@ -99,12 +123,14 @@ def obligations(tier):
     arrs = [(0,), (1,), (0, 1), (1, 1)] if tier == 'quick' else [(0,), (1,), (0, 1), (1, 0), (1, 1), (0, 0), (0, 1, 0)]
     for pre in pres:
         for sel in (None, 0, 1):
-            for cmd in (None, 'filter', 'conn0', 'conn1', 'all'):
+            for cmd in (None, 'filter', 'conn0', 'conn1', 'all', 'typo'):
                 for arr in arrs:
                     cases.append((pre, sel, cmd, arr))
                 for closed in (0, 1):
                     cases.append((pre, sel, cmd, (1 - closed,), closed))
                     cases.append((pre, sel, cmd, (1 - closed, 1 - closed), closed))
+                    if cmd in (None, 'filter', 'typo'):
+                        cases.append((pre, sel, cmd, (closed, 1 - closed), 10 + closed))
     bounds = 'records <= 3, 2 connections, selection none/A/B (selected connection possibly closed), optional command (filter / connection A / B / all), 1-%d arrivals; verdicts of all leaves symbolic' % max(len(a) for a in arrs)
     return [Ob('live-view-step', 'symx', 'one live-view step from an arbitrary controller state', FUNCS, bounds, step, cases=cases,
                stubs=['abstract leaves', 'Message.show stubbed', 'matcher.parse stubbed inside the filter command']),
